@@ -516,6 +516,18 @@ def explore(C, family, ops, keys, depth, workers):
     return len(seen)
 
 
+def _names_family(args):
+    """every clashing name X (and a dict-only attribute name) in every position of keys of depth <= 3 over {a, X}"""
+    X, depth = args
+    C = Ctx()
+    nm = ["a", X]
+    keys = nm + [f"{p}.{q}" for p in nm for q in nm] + [f"a.{X}.a", f"{X}.a.{X}", f"a.a.{X}", f"{X}.{X}.{X}"]
+    vals = [1, {X: {"a": 2}, "a": {X: 3}}]
+    ops = make_ops(keys, vals, [NS(**{X: NS(a=2), "a": 3})], setattr_keys=nm + [f"a.{X}"])
+    total = explore(C, "names:" + X, ops, keys, depth, 1)
+    return C, total, len(ops)
+
+
 # ---------------------------------------------------------------------------------------------- random histories
 def random_histories(C, rng, count, maxlen):
     names = ["a", "b", "copy"] + list(CLASH)
@@ -638,13 +650,11 @@ def main():
     bound.append(f"deep: all histories of length <= {d_deep} over {len(deep_ops)} mutator instances (keys {deep_keys}; values 1, {D1}, Namespace(b=Namespace(c=2), items=3)) = {total} distinct states")
     total = explore(C, "mid", mid_ops, mid_keys, d_mid, workers)
     bound.append(f"mid: length <= {d_mid} over {len(mid_ops)} mutator instances (keys {mid_keys}; 8 plain values incl. None, mixed list, list of dicts, tuple, empty and clash-keyed dict; 2 namespace values; step-by-step set) = {total} states")
-    for X in list(CLASH) + ["copy"]:
-        nm = ["a", X]
-        keys = nm + [f"{p}.{q}" for p in nm for q in nm] + [f"a.{X}.a", f"{X}.a.{X}", f"a.a.{X}", f"{X}.{X}.{X}"]
-        vals = [1, {X: {"a": 2}, "a": {X: 3}}]
-        ops = make_ops(keys, vals, [NS(**{X: NS(a=2), "a": 3})], setattr_keys=nm + [f"a.{X}"])
-        total = explore(C, "names:" + X, ops, keys, d_names, workers)
-    bound.append(f"names: for each X in {list(CLASH) + ['copy']}: length <= {d_names} over keys of depth 1-3 from {{a, X}} ({len(ops)} mutator instances each)")
+    names = list(CLASH) + ["copy"]
+    with multiprocessing.get_context("fork").Pool(min(workers, len(names))) as pool:
+        for Cw, total, nops in pool.map(_names_family, [(X, d_names) for X in names], chunksize=1):
+            C.merge(Cw)
+    bound.append(f"names: for each X in {names}: length <= {d_names} over keys of depth 1-3 from {{a, X}} ({nops} mutator instances each; dict and namespace values keyed by a and X)")
     n_rand, maxlen = (3000, 40) if h.thorough else (150, 40)
     C.track = True
     random_histories(C, h.rng, n_rand, maxlen)
